@@ -74,6 +74,20 @@ def pos_def_metrics(n):
     for name, (mat, dense) in list(out.items()):
         if name not in ("identity",):
             out[name + ".inv"] = (pos_def_metrics_single(n, name).inv, np.linalg.inv(dense))
+    # metrics DERIVED from an object that was already used (its lazy factorisations are filled): a rescaled
+    # metric after momenta were drawn with the original one, the inverse after a draw, ...
+    for name, (mat, dense) in list(out.items()):
+        if name == "identity" or name.endswith(".inv"):
+            continue
+        used = pos_def_metrics_single(n, name)
+        _ = used.sqrt @ np.ones(n), used.inv @ np.ones(n)          # fill the lazily computed factors
+        out[name + "*4(used)"] = (4.0 * used, 4.0 * dense)
+        used2 = pos_def_metrics_single(n, name)
+        _ = used2.sqrt @ np.ones(n)
+        out[name + "/4(used)"] = (used2 / 4.0, dense / 4.0)
+        used3 = pos_def_metrics_single(n, name)
+        _ = used3.sqrt @ np.ones(n), float(used3.log_abs_det)
+        out[name + ".inv(used)"] = (used3.inv, np.linalg.inv(dense))
     return out
 
 
